@@ -2,7 +2,10 @@
 schema) with real keys, real certificates and a compiled LVS schema, and drives
 lvs_validator(checker, app, anchor) on legacy NDNApps over the virtual loop with a harness producer.
 
-  KeyPool        real key pairs, generated once per run (EC P-256; RSA-1024 / Ed25519 on demand)
+  KeyPool        real key pairs, generated once per run, of every key algorithm of TrustChain.tla (KeyAlgs): ECDSA on
+                 P-224 / P-256 / P-384 / P-521, RSA 1024 / 2048 / 3072, Ed25519. Every key of a world has its own
+                 algorithm (world['alg']: key -> algorithm), so anchor, intermediate certificates and packet signer
+                 are of different key types
   materialise    world -> real names and wires (new_cert / self_sign / derive_cert, make_data)
   Scenario       one world, several validator instances (one application + face each);
                  stimuli = Env actions of the spec (NewValidator, Validate, FetchReply)
@@ -71,31 +74,64 @@ def checker_for(sch):
     return _checkers[sch]
 
 
+# key algorithm (TrustChain.tla: KeyAlgs) -> (family = signer / SignatureType, curve or modulus bits)
+ALGS = {'p224': ('ec', 'P-224'), 'p256': ('ec', 'P-256'), 'p384': ('ec', 'P-384'), 'p521': ('ec', 'P-521'),
+        'rsa1024': ('rsa', 1024), 'rsa2048': ('rsa', 2048), 'rsa3072': ('rsa', 3072), 'ed': ('ed', 'Ed25519')}
+ALIAS = {'ec': 'p256', 'rsa': 'rsa1024'}        # names of earlier replay files
+# RSA keys of these sizes take 0.2 .. 3 s each to generate: a world may use at most this many distinct keys of the algorithm
+SLOW = {'rsa2048': 4, 'rsa3072': 4}
+FAST = ['p224', 'p256', 'p384', 'p521', 'rsa1024', 'ed']
+
+
 class KeyPool:
     def __init__(self):
-        self.keys = {'ec': [], 'rsa': [], 'ed': []}
+        import threading
+        self.keys = {a: [] for a in ALGS}
+        self.lock = threading.RLock()
+        self.bg = None
 
-    def get(self, kt, i):
-        ks = self.keys[kt]
-        while len(ks) <= i:
-            if kt == 'ec':
-                k = ECC.generate(curve='P-256')
-                ks.append((k.export_key(format='DER', use_pkcs8=False), bytes(k.public_key().export_key(format='DER'))))
-            elif kt == 'ed':
-                k = ECC.generate(curve='Ed25519')
-                ks.append((k.export_key(format='DER'), bytes(k.public_key().export_key(format='DER'))))
-            else:
-                k = RSA.generate(1024)        # the smallest size PyCryptodome generates: key size is not what C14 is about
-                ks.append((k.export_key(format='DER'), bytes(k.public_key().export_key(format='DER'))))
-        return ks[i]
+    def prefetch(self, counts):
+        """generate the slow keys {algorithm: how many} in the background (while TLC produces the first state graphs)"""
+        import threading
+
+        def go():
+            for a, n in counts.items():
+                for i in range(n):
+                    self.get(a, i)
+        self.bg = threading.Thread(target=go, daemon=True)
+        self.bg.start()
+
+    def _generate(self, alg):
+        fam, par = ALGS[alg]
+        if fam == 'ec':
+            k = ECC.generate(curve=par)
+            return k.export_key(format='DER', use_pkcs8=False), bytes(k.public_key().export_key(format='DER'))
+        if fam == 'ed':
+            k = ECC.generate(curve=par)
+            return k.export_key(format='DER'), bytes(k.public_key().export_key(format='DER'))
+        k = RSA.generate(par)
+        return k.export_key(format='DER'), bytes(k.public_key().export_key(format='DER'))
+
+    def get(self, alg, i):
+        alg = ALIAS.get(alg, alg)
+        if alg not in ALGS:
+            raise tlc.MachineryError('unknown key algorithm %r' % (alg,))
+        if i >= SLOW.get(alg, 1000):
+            raise tlc.MachineryError('world with more than %d keys of algorithm %s' % (SLOW[alg], alg))
+        with self.lock:
+            ks = self.keys[alg]
+            while len(ks) <= i:
+                ks.append(self._generate(alg))
+            return ks[i]
 
 
 _imported = {}
 
 
-def _signer(kt, kl_name, priv, info_only=False):
-    """signer of the library for key type kt; the (slow) import of the private key is done once per key"""
-    cls = {'ec': Sha256WithEcdsaSigner, 'rsa': Sha256WithRsaSigner, 'ed': Ed25519Signer}[kt]
+def _signer(alg, kl_name, priv, info_only=False):
+    """signer of the library for key algorithm alg; the (slow) import of the private key is done once per key"""
+    cls = {'ec': Sha256WithEcdsaSigner, 'rsa': Sha256WithRsaSigner, 'ed': Ed25519Signer}[ALGS[ALIAS.get(alg, alg)][0]]
+    kt = alg
     if info_only:
         s = cls.__new__(cls)
         s.key_locator_name = kl_name
@@ -140,8 +176,8 @@ class _OddSigner(enc.Signer):
 class _ReplaySigner(enc.Signer):
     """SignatureInfo as the genuine signer of that key type and key locator writes it, SignatureValue = the bytes of
     a signature made earlier over OTHER signed bytes"""
-    def __init__(self, kt, kl_name, sig_value):
-        self.info = _signer(kt, kl_name, None, info_only=True)
+    def __init__(self, alg, kl_name, sig_value):
+        self.info = _signer(alg, kl_name, None, info_only=True)
         self.sig_value = bytes(sig_value)
 
     def write_signature_info(self, signature_info):
@@ -161,8 +197,26 @@ def _flip_last(wire):
     return bytes(b)
 
 
-NOT_KEYS = {'forged', 'replay', 'digest', 'none', 'hmac', 'unknownsig', 'hmacpub', 'digestkl', 'wrongtype'}
-OTHER_TYPE = {'ec': 'rsa', 'rsa': 'ec', 'ed': 'ec'}
+NOT_KEYS = {'forged', 'replay', 'digest', 'none', 'hmac', 'unknownsig', 'hmacpub', 'digestkl', 'wrongtype', 'wrongcurve'}
+# "wrongtype": a key of another signature algorithm than the named certificate's key;
+# "wrongcurve": the same signature algorithm, a key of another size (Ed25519 has one size only: another algorithm)
+OTHER_TYPE = {'ec': 'rsa1024', 'rsa': 'p256', 'ed': 'p256'}
+OTHER_SIZE = {'p224': 'p256', 'p256': 'p384', 'p384': 'p521', 'p521': 'p256', 'rsa1024': 'rsa2048', 'rsa2048': 'rsa1024',
+              'rsa3072': 'rsa2048', 'ed': 'p256'}
+
+
+def world_keys(world):
+    """the key ids of a world (sorted)"""
+    certs, pkts = dict(world['certs']), dict(world['pkts'])
+    return sorted(({dict(c)['key'] for c in certs.values()} | {dict(c)['sig'] for c in certs.values()}
+                   | {dict(p)['sig'] for p in pkts.values()}) - NOT_KEYS)
+
+
+def alg_map(world):
+    """key id -> algorithm, for every key of the world (TrustChain.tla: AlgOf)"""
+    given = dict(world.get('alg') or {})
+    default = ALIAS.get(world.get('kt'), world.get('kt')) or 'p256'       # 'kt': replay files of earlier versions
+    return {k: ALIAS.get(given.get(k, default), given.get(k, default)) for k in world_keys(world)}
 
 
 class Mat:
@@ -172,6 +226,7 @@ class Mat:
         self.wire = {}       # abstract name -> bytes (certificates and packets)
         self.abstract = {}   # Name bytes -> abstract name
         self.sch = None
+        self.alg = {}        # key id -> algorithm
 
 
 def real_name(n, shape, twin_of=None):
@@ -188,8 +243,8 @@ def real_name(n, shape, twin_of=None):
     raise tlc.MachineryError('unknown shape %r' % (shape,))
 
 
-def materialise(world, kt, pool):
-    """world: dict with schema (iterable of pairs), shape, certs, pkts, sch; must run inside a Session
+def materialise(world, pool):
+    """world: dict with schema (iterable of pairs), shape, certs, pkts, sch, alg; must run inside a Session
     (certificate versions come from the virtual clock)."""
     m = Mat()
     m.sch = world['sch']
@@ -202,23 +257,37 @@ def materialise(world, kt, pool):
             continue
         rn = real_name(n, sh, dict(world.get('twin') or {}).get(n))
         m.name[n] = rn + [ver] if not sh.startswith('d') else rn
-    key_ids = sorted(({c['key'] for c in certs.values()} | {c['sig'] for c in certs.values()} | {p['sig'] for p in pkts.values()})
-                     - NOT_KEYS)
-    kidx = {k: i for i, k in enumerate(key_ids)}
+    key_ids = world_keys(world)
+    alg = alg_map(world)
+    m.alg = alg
+    kidx = {}                 # key id -> index among the world's keys of its algorithm
+    for k in key_ids:
+        kidx[k] = sum(1 for j in kidx if alg[j] == alg[k])
+
+    def priv(k):
+        return pool.get(alg[k], kidx[k])[0]
+
+    def pub(k):
+        return pool.get(alg[k], kidx[k])[1]
+
+    def named_key(el):
+        """the key of the certificate the element names (what a verifier would use)"""
+        return certs[el['kl']]['key'] if el['kl'] in certs else key_ids[0]
 
     replay = dict(world.get('replay') or {})
 
     def signer_for(el, n=None):
         kl = None if el['kl'] == 'none' else m.name[el['kl']]
         if el['sig'] == 'replay':
-            _, _, _, sp = enc.parse_data(m.wire[replay[n]])
-            return _ReplaySigner(kt, kl, sp.signature_value_buf), False
+            src = replay[n]
+            _, _, _, sp = enc.parse_data(m.wire[src])
+            sk = (certs.get(src) or pkts.get(src))['sig']
+            return _ReplaySigner(alg.get(sk, 'p256'), kl, sp.signature_value_buf), False
         if el['sig'] == 'digest':
             return DigestSha256Signer(), False
         if el['sig'] == 'hmacpub':
             # HMAC keyed with what everybody knows: the public key bits of the certificate the key locator names
-            k = certs[el['kl']]['key'] if el['kl'] in certs else key_ids[0]
-            return HmacSha256Signer(kl, pool.get(kt, kidx[k])[1]), False
+            return HmacSha256Signer(kl, pub(named_key(el))), False
         if el['sig'] == 'digestkl':
             sg = DigestSha256Signer()
             orig = sg.write_signature_info
@@ -231,19 +300,23 @@ def materialise(world, kt, pool):
             return sg, False
         if el['sig'] == 'wrongtype':
             # a genuine signature, but of another algorithm than the key of the named certificate
-            other = OTHER_TYPE[kt]
+            other = OTHER_TYPE[ALGS[alg[named_key(el)]][0]]
+            return _signer(other, kl, pool.get(other, 0)[0]), False
+        if el['sig'] == 'wrongcurve':
+            # a genuine signature of the algorithm of the named certificate's key, made with a key of another size
+            other = OTHER_SIZE[alg[named_key(el)]]
             return _signer(other, kl, pool.get(other, 0)[0]), False
         if el['sig'] in ('hmac', 'unknownsig'):
             return _OddSigner(enc.SignatureType.HMAC_WITH_SHA256 if el['sig'] == 'hmac' else 200, kl), False
         if el['sig'] == 'forged':
-            k = certs[el['kl']]['key'] if el['kl'] in certs else key_ids[0]
-            return _signer(kt, kl, pool.get(kt, kidx[k])[0]), True
-        return _signer(kt, kl, pool.get(kt, kidx[el['sig']])[0]), False
+            k = named_key(el)
+            return _signer(alg[k], kl, priv(k)), True
+        return _signer(alg[el['sig']], kl, priv(el['sig'])), False
     start = datetime(2020, 1, 1)
     for n, c in sorted(certs.items(), key=lambda x: x[1]['sig'] == 'replay'):      # replayed signatures after their sources
         sg, forge = signer_for(c, n)
         full = m.name[n]
-        cname, wire = sv2.new_cert(full[:-2], full[-2], pool.get(kt, kidx[c['key']])[1], sg, start, start + timedelta(days=7300))
+        cname, wire = sv2.new_cert(full[:-2], full[-2], pub(c['key']), sg, start, start + timedelta(days=7300))
         if enc.Name.to_bytes(cname) != enc.Name.to_bytes(full):
             raise tlc.MachineryError('certificate name differs from the planned one: %s' % enc.Name.to_str(cname))
         m.wire[n] = _flip_last(bytes(wire)) if forge else bytes(wire)
@@ -289,7 +362,7 @@ class Scenario:
     """One world; validator instances `insts`, each on its own legacy NDNApp + face or (same_app) all on one;
     `slots` = validations that may be in progress at once ("v1b" = second validation on v1 while the first waits)."""
 
-    def __init__(self, world, insts, kt='ec', pool=None, mat_cache=None, slots=None, same_app=False):
+    def __init__(self, world, insts, pool=None, mat_cache=None, slots=None, same_app=False):
         self.world = world
         self.insts = list(insts)
         self.slots = list(slots) if slots else list(insts)
@@ -297,11 +370,11 @@ class Scenario:
         self.sess = Session()
         self.sess.__enter__()
         reset_default_storages()
-        key = (repr(sorted((k, repr(v)) for k, v in world.items())), kt)
+        key = repr(sorted((k, repr(v)) for k, v in world.items()))
         if mat_cache is not None and key in mat_cache:
             self.mat = mat_cache[key]
         else:
-            self.mat = materialise(world, kt, pool)
+            self.mat = materialise(world, pool)
             if mat_cache is not None:
                 mat_cache[key] = self.mat
         self.apps = ['app'] if same_app else list(self.insts)
